@@ -62,18 +62,27 @@ Str genum_case(uint64_t idx, const Str& alphabet, size_t maxlen) {
 Str gwalk(Rng& rng, size_t maxlen, bool complete) {
     Str s; unsigned st = 0;
     size_t target = 1 + rng.below((uint32_t)maxlen);
-    // locate the class of '[' and '%' to bias into the IP-literal and pct sub-automata
-    unsigned cls_lb = uriref_class[(unsigned char)'['], cls_pct = uriref_class[(unsigned char)'%'];
+    // bias: structural characters (delimiters, brackets, percent, dots, digits) are taken more often than their share of
+    // the alphabet, so that walks visit the authority / IP-literal / dec-octet / percent sub-automata and not only pchar loops
+    static const char structural[] = ":/?#@[]%.";
+    unsigned cls_lb = uriref_class[(unsigned char)'['];
+    int style = (int)rng.below(4);      // 0: uniform over live classes, 1-3: structure-biased
     for (size_t i = 0; i < target; i++) {
-        unsigned live[URIREF_NCLASSES]; unsigned nl = 0; bool canLb = false, canPct = false;
-        for (unsigned c = 1; c < URIREF_NCLASSES; c++) if (!uriref_dead[uriref_trans[st][c]]) { live[nl++] = c; if (c == cls_lb) canLb = true; if (c == cls_pct) canPct = true; }
+        unsigned live[URIREF_NCLASSES]; unsigned nl = 0; unsigned hot[16]; unsigned nh = 0; bool canLb = false;
+        for (unsigned c = 1; c < URIREF_NCLASSES; c++) if (!uriref_dead[uriref_trans[st][c]]) {
+            live[nl++] = c; if (c == cls_lb) canLb = true;
+            for (const char* p = structural; *p; p++) if (uriref_class[(unsigned char)*p] == c && nh < 16) { hot[nh++] = c; break; }
+        }
         if (nl == 0) break;
         unsigned c;
         if (canLb && rng.chance(2, 3)) c = cls_lb;
-        else if (canPct && rng.chance(1, 8)) c = cls_pct;
+        else if (style && nh && rng.chance(1, 3)) c = hot[rng.below(nh)];
         else c = live[rng.below(nl)];
         auto& mem = class_members()[c];
-        s.push_back((char)mem[rng.below((uint32_t)mem.size())]);
+        // within a class prefer digits/hex letters/dots (counters of the IPv6 / dec-octet scanners) half of the time
+        unsigned char ch = mem[rng.below((uint32_t)mem.size())];
+        if (style >= 2 && rng.coin()) { static const char pref[] = "0125aAfF.:"; for (int t = 0; t < 4; t++) { unsigned char q = (unsigned char)pref[rng.below(sizeof pref - 1)]; if (uriref_class[q] == c) { ch = q; break; } } }
+        s.push_back((char)ch);
         st = uriref_trans[st][c];
         if (uriref_accept[st] && rng.chance(1, 40)) break;
     }
